@@ -205,6 +205,7 @@ def h(t, part):
                 except Exception:
                     hit = False
             if hit:
+                boom_send['hits'] = boom_send.get('hits', 0) + 1
                 if asyncio_:
                     async def f():
                         if boom_send.get('cancelled'):
@@ -224,6 +225,8 @@ def h(t, part):
         got = [p.data[0] for p in w.take('e0') if not isinstance(p, tuple) and p.packet_type == packet.EVENT]
         t.reached('listener')
         t.note(plan)
+        if boom_send['on'] and not boom_send.get('hits'):
+            return Fail('harness:fault-not-injected', 'the raising server operation was never reached: plan %r' % (plan,))
         if died is not None:
             return Fail('listener:died:%s' % type(died).__name__, 'plan %r: %r' % (plan, died))
         if m.cursor != len(m.chan):
